@@ -15,7 +15,8 @@
 (*                                                                           *)
 (* What the model pins down and the replay checks against the real runner:   *)
 (*   - only regular entries whose extension is exactly .p or .ppl are        *)
-(*     scripts (a directory named x.p, notes.txt, a.p.bak are not);          *)
+(*     scripts (a directory named x.p, notes.txt, a.p.bak are not; a file    *)
+(*     named just `.p` is);                                                  *)
 (*   - a script is known by its full file name: main.p and main.ppl are two  *)
 (*     scripts, use("lib") does not find lib.p;                              *)
 (*   - the verdict of the selected script depends only on the scripts it     *)
@@ -45,13 +46,14 @@ Siblings == {
   Ent("cyc.p",     ".p",   "file", "ok",     <<"main.p">>),
   Ent("notes.txt", ".txt", "file", "ok",     <<>>),
   Ent("a.p.bak",   ".bak", "file", "ok",     <<>>),
-  Ent("sub.p",     ".p",   "dir",  "ok",     <<>>) }
+  Ent("sub.p",     ".p",   "dir",  "ok",     <<>>),
+  Ent(".p",        ".p",   "file", "ok",     <<>>) }      \* nothing before the extension: still a file whose name ends in .p
 
 \* what the selected main.p may contain: nothing special, or one or two use() calls
 MainUses == { <<>>, <<"lib.p">>, <<"other.ppl">>, <<"bad.p">>, <<"chk.ppl">>, <<"lnk.p">>, <<"via.p">>, <<"cyc.p">>,
-              <<"notes.txt">>, <<"a.p.bak">>, <<"sub.p">>, <<"lib">>, <<"main.ppl">>, <<"lib.p", "other.ppl">>, <<"via.p", "lib.p">> }
+              <<"notes.txt">>, <<"a.p.bak">>, <<"sub.p">>, <<"lib">>, <<"main.ppl">>, <<"lib.p", "other.ppl">>, <<"via.p", "lib.p">>, <<".p">> }
 \* what -s may name
-Selections == {"main.p", "other.ppl", "via.p", "bad.p", "lnk.p", "notes.txt", "sub.p", "absent.p", "main"}
+Selections == {"main.p", "other.ppl", "via.p", "bad.p", "lnk.p", "notes.txt", "sub.p", "absent.p", "main", ".p"}
 
 Main(u) == Ent("main.p", ".p", "file", "ok", u)
 
